@@ -31,7 +31,7 @@ pub fn h_iterate() {
     let root = sym::fs_root();
     let db = root.join("db");
     sym::fs_add_dir(&db);
-    let n = sym::choose("n", sym::bound(2, 3) + 1);
+    let n = sym::choose("n", sym::bound(2, 2) + 1);
     let mut names: Vec<String> = Vec::new();
     let mut complete: Vec<bool> = Vec::new();
     let mut i = 0;
@@ -163,7 +163,7 @@ pub fn h_filenames() {
 pub fn h_is_valid() {
     let mut m = Metadata::new();
     let mut nonempty = [false; 3];
-    let calls = sym::choose("ncalls", sym::bound(3, 4) + 1);
+    let calls = sym::choose("ncalls", sym::bound(3, 3) + 1);
     let mut i = 0;
     while i < calls {
         let e = [2usize, 3, 5, 0, 6, 12][sym::choose("entry", 6)];
